@@ -280,6 +280,8 @@ def check_property(pid, tier, seed, replay=None):
     evidence_path = os.path.join(EVID, pid + ".json")
     if os.path.exists(evidence_path):
         os.unlink(evidence_path)
+    for old in glob.glob(os.path.join(REPLAY, pid + "-*.txt")):
+        os.unlink(old)
     proof_problems = []      # broken obligations
     notes = []
     cfgs = sorted({c for d in P["domains"] for c in d["cfgs"]})
